@@ -1,11 +1,14 @@
 #!/bin/sh
 # usage: confirm_mutant.sh <worktree>   (worktree has the change applied + tests/seeded_demo.rs)
 # Confirms: suite passes with the change (only source_unreadable + the demo fail), demo fails with / passes without.
+# NOTE: never `git stash` here: refs/stash is shared by all worktrees of a repository.
 wt="$1"; cd "$wt" || exit 2
 export CARGO_NET_OFFLINE=true
 feat=""; grep -q 'feature = "verif_hooks"' tests/seeded_demo.rs && feat="--features verif_hooks"
+git diff -- src > .confirm.patch
+cmp -s .confirm.patch patch.diff || echo "## NOTE: git diff -- src differs from patch.diff"
 echo "## $wt suite with change:"; cargo nextest run --workspace --no-fail-fast --offline $feat 2>&1 | grep -E "Summary|FAIL \[" | sort -u | head -8
 echo "## demo with change:"; cargo test --offline $feat --test seeded_demo 2>&1 | grep -E "^test result|panicked at" | head -3
-git stash push -q -- src; touch src/lib.rs
+git checkout -- src; touch src/lib.rs
 echo "## demo without change:"; cargo test --offline $feat --test seeded_demo 2>&1 | grep -E "^test result|panicked at" | head -3
-git stash pop -q; rm -rf target
+git apply .confirm.patch; rm -f .confirm.patch; rm -rf target
